@@ -25,6 +25,7 @@ type LifecycleInput struct {
 }
 
 type lcRun struct {
+	sharedOpts             bool // one CreateDBOptions value reused for the sibling and the main database
 	in                     *LifecycleInput
 	res                    *Result
 	bid                    string
@@ -137,7 +138,13 @@ func (r *lcRun) setup(tag string) error {
 	if r.inst, err = ip.Start(filepath.Join(r.dir, "orbitdb")); err != nil {
 		return err
 	}
-	if r.sib, err = r.inst.Open("sibling-"+tag, "eventlog", &orbitdb.CreateDBOptions{AccessController: ac}); err != nil {
+	// every second behaviour: the caller reuses one options value for all the databases it opens
+	sibOpts := &orbitdb.CreateDBOptions{AccessController: ac}
+	var mainOpts *orbitdb.CreateDBOptions
+	if r.sharedOpts {
+		mainOpts = sibOpts
+	}
+	if r.sib, err = r.inst.Open("sibling-"+tag, "eventlog", sibOpts); err != nil {
 		return err
 	}
 	for i := 0; i < 2; i++ {
@@ -150,7 +157,7 @@ func (r *lcRun) setup(tag string) error {
 	}
 	// everything alive now belongs to the instance, the sibling or the remote peer; what the main store starts comes later
 	r.beforeMain = goroutines()
-	if r.main, err = r.inst.Open(rr.Addr, "keyvalue", nil); err != nil {
+	if r.main, err = r.inst.Open(rr.Addr, "keyvalue", mainOpts); err != nil {
 		return err
 	}
 	if _, err := r.main.S.(orbitdb.KeyValueStore).Put(ctx, "seed", []byte("seed")); err != nil {
@@ -231,6 +238,7 @@ func (r *lcRun) position(w, rp, l int) {
 }
 
 func (r *lcRun) run(b Behaviour, idx int) {
+	r.sharedOpts = idx%2 == 1
 	if err := r.setup(fmt.Sprintf("lc%d", idx)); err != nil {
 		r.res.Inconclusive = append(r.res.Inconclusive, b.ID+": setup: "+err.Error())
 		return
@@ -376,6 +384,31 @@ func (r *lcRun) run(b Behaviour, idx int) {
 	}
 	// reopen the directory
 	_ = r.inst.Close()
+	if !instanceWide {
+		// closing the instance after one of its databases was closed: everything the instance started ends
+		deadline := time.Now().Add(4 * time.Second)
+		var still []string
+		for {
+			still = still[:0]
+			for id, g := range goroutines() {
+				if _, ok := r.beforeInst[id]; !ok {
+					still = append(still, g)
+				}
+			}
+			if len(still) == 0 || time.Now().After(deadline) {
+				break
+			}
+			time.Sleep(20 * time.Millisecond)
+		}
+		r.res.Comparisons++
+		if len(still) > 0 {
+			n := len(still)
+			if len(still) > 3 {
+				still = still[:3]
+			}
+			r.violate("leak", fmt.Sprintf("%d goroutine(s) of the instance are still running after %s of one database followed by the close of the instance: %s", n, kind, strings.Join(still, " ## ")))
+		}
+	}
 	acked := []string{"seed"}
 	if putReturned && putErr == nil {
 		acked = append(acked, "w")
